@@ -141,7 +141,7 @@ class Gen:
             elif kind == "wrongaddr":
                 pool.append(self.obs(d, m, signer=r.choice(members)))
             elif kind == "err":
-                pool.append(self.obs(d, m, signer="ERR", shape=r.choice(["badv", "shortsig", "longsig", "nilsig", "zerors"])))
+                pool.append(self.obs(d, m, signer="ERR", shape=r.choice(["badv", "shortsig", "longsig", "nilsig", "zerors", "v27", "v27"])))
             elif kind == "ownreplay":
                 pool.append(self.obs(d, "g1"))
             else:
@@ -402,7 +402,7 @@ class Gen:
             lambda: {"ev": "SetUpdate", "a": {"set": A}},
             lambda: {"ev": "SetUpdate", "a": {"set": E}},
             lambda: self.obs(r.choice(list(bodies)), r.choice(members)),
-            lambda: self.obs("d1", r.choice(members), signer="ERR", shape=r.choice(["badv", "shortsig", "longsig", "nilsig", "zerors"])),
+            lambda: self.obs("d1", r.choice(members), signer="ERR", shape=r.choice(["badv", "shortsig", "longsig", "nilsig", "zerors", "v27", "v27"])),
             lambda: {"ev": "Advance", "a": {"k": r.choice([31, 301, 3601])}},
             lambda: {"ev": "CleanupTick", "a": {"x": 0}},
             lambda: self.vaa(r.choice(list(bodies)), bodies, A, list(range(n))),
@@ -505,7 +505,7 @@ class Gen:
             elif kind == "wrongaddr":
                 steps.append(self.obs(d, k, signer=r.choice(everyone)))
             elif kind == "err":
-                steps.append(self.obs(d, k, signer="ERR", shape=r.choice(["badv", "shortsig", "longsig", "nilsig", "zerors"])))
+                steps.append(self.obs(d, k, signer="ERR", shape=r.choice(["badv", "shortsig", "longsig", "nilsig", "zerors", "v27", "v27"])))
             elif kind == "outsider":
                 steps.append(self.obs(d, "x1"))
             elif kind == "formerly":
